@@ -84,7 +84,10 @@ def gen_index(rng, table, used_names, cols=None):
     k = rng.choice([1, 1, 1, 2, 2, 3])
     cols = cols or rng.sample(names, min(k, len(names)))
     nm = _fresh(rng, [], used_names, "ix_%s_%s_" % (table["name"], "_".join(cols)[:12]))
-    return {"name": nm, "cols": cols, "unique": rng.random() < 0.3}
+    ix = {"name": nm, "cols": cols, "unique": rng.random() < 0.3}
+    if rng.random() < 0.12:
+        ix["desc"] = True
+    return ix
 
 
 def gen_unique(rng, table, used_names):
@@ -119,30 +122,39 @@ def gen_fk(rng, table, targets, used_names):
 def all_names(schema):
     s = set()
     for t in schema["tables"]:
-        for k in ("ixs", "uqs", "fks"):
-            for o in t[k]:
+        for k in ("ixs", "uqs", "fks", "fixs"):
+            for o in t.get(k, []):
                 s.add(o["name"])
     return s
 
 
-def gen_table(rng, name, earlier, used_names, odd=False, max_cols=6, funcs=False, computed=False):
+def gen_table(rng, name, earlier, used_names, odd=False, max_cols=6, funcs=False, computed=False, nullable_unset=False):
     ncols = rng.randint(1, max_cols)
     cnames = ["id"] + rng.sample(CNAMES[1:], ncols - 1) if rng.random() < 0.8 else rng.sample(CNAMES, ncols)
     cols = []
     for i, cn in enumerate(cnames):
         pk = (cn == "id") or (i == 1 and cnames[0] == "id" and rng.random() < 0.1)
         cols.append(gen_col(rng, cn, odd, pk=pk, funcs=funcs))
-    if computed and rng.random() < 0.35:
+    if cols[0]["pk"] and cols[0]["ty"]["fam"] in ("Integer", "BigInteger") and rng.random() < 0.3:
+        cols[0]["autoinc"] = False
+    if computed and rng.random() < (computed if isinstance(computed, float) else 0.35):
         # a generated column over the first column (C07: nullability of a Computed column with explicit nullable=)
         ref = cols[0]["name"]
         cols.append({"name": "gen_%s" % ref, "ty": {"fam": rng.choice(["Integer", "BigInteger", "Numeric"]), "args": []},
                      "nullable": rng.random() < 0.5, "pk": False, "default": None,
                      "computed": {"sql": "length(%s) + %d" % (ref, rng.randint(0, 9)), "ref": ref, "persisted": rng.random() < 0.5}})
+        if nullable_unset and rng.random() < 0.3:
+            cols[-1]["computed"]["nullable_unset"] = True
+            cols[-1]["nullable"] = True
     t = {"name": name, "cols": cols, "uqs": [], "ixs": [], "fks": []}
     for _ in range(rng.choice([0, 0, 1, 1, 2, 3])):
         ix = gen_index(rng, t, used_names)
         used_names.add(ix["name"])
         t["ixs"].append(ix)
+    if rng.random() < 0.15:
+        fx = {"name": _fresh(rng, [], used_names, "ixf_%s_" % name), "col": rng.choice(cols)["name"]}
+        used_names.add(fx["name"])
+        t["fixs"] = [fx]
     for _ in range(rng.choice([0, 0, 0, 1, 1, 2])):
         u = gen_unique(rng, t, used_names)
         if u:
@@ -156,13 +168,13 @@ def gen_table(rng, name, earlier, used_names, odd=False, max_cols=6, funcs=False
     return t
 
 
-def gen_schema(rng, odd=False, max_tables=5, max_cols=6, funcs=False, computed=False):
+def gen_schema(rng, odd=False, max_tables=5, max_cols=6, funcs=False, computed=False, nullable_unset=False):
     n = rng.randint(1, max_tables)
     names = rng.sample(TNAMES, n)
     used = set()
     tables = []
     for nm in names:
-        tables.append(gen_table(rng, nm, list(tables), used, odd, max_cols, funcs, computed))
+        tables.append(gen_table(rng, nm, list(tables), used, odd, max_cols, funcs, computed, nullable_unset))
     return {"tables": tables}
 
 
@@ -176,6 +188,8 @@ def referenced_tables(schema, exclude=None):
 def col_in_use(schema, tname, cname):
     for t in schema["tables"]:
         if t["name"] == tname and any(c.get("computed") and c["computed"]["ref"] == cname for c in t["cols"]):
+            return True
+        if t["name"] == tname and any(f["col"] == cname for f in t.get("fixs", [])):
             return True
         if t["name"] == tname:
             for o in t["ixs"] + t["uqs"] + t["fks"]:
@@ -247,6 +261,40 @@ def candidate_mutations(rng, schema, odd=False):
         next(c for c in tbl(s, tn)["cols"] if c["name"] == c1["name"])["ty"] = nty
 
     out.append(({"m": "changeType", "t": tn, "c": c1["name"], "ty": nty}, mutated(chty)))
+    # near-miss type edits (C06 pairs only, not catalogue mutations of C07): same family with other arguments
+    # (VARCHAR(10) -> VARCHAR(20), NUMERIC(10, 2) -> NUMERIC(12, 2)) and the NUMERIC / DECIMAL synonym pair
+    cands = [c for c in t0["cols"] if c["ty"]["args"] and c["ty"]["fam"] not in ("Enum",) and not c.get("pk")]
+    if cands:
+        c3 = rng.choice(cands)
+        nty3 = copy.deepcopy(c3["ty"])
+        if c3["ty"]["fam"] in ("Numeric", "NUMERIC", "DECIMAL") and rng.random() < 0.5:
+            nty3["fam"] = {"Numeric": "DECIMAL", "NUMERIC": "DECIMAL", "DECIMAL": "NUMERIC"}[c3["ty"]["fam"]]
+        else:
+            nty3["args"] = [nty3["args"][0] + rng.choice([1, 7, 100])] + nty3["args"][1:]
+
+        def chty3(s, c3=c3, nty3=nty3):
+            next(c for c in tbl(s, tn)["cols"] if c["name"] == c3["name"])["ty"] = nty3
+
+        out.append(({"m": "changeTypeArgs", "t": tn, "c": c3["name"], "ty": nty3}, mutated(chty3)))
+    # a named unique constraint replaced by a (unique) index of the same name and vice versa (C06 pairs only)
+    if t0["uqs"] and rng.random() < 0.5:
+        u9 = rng.choice(t0["uqs"])
+
+        def swap_u(s, u9=u9):
+            t = tbl(s, tn)
+            t["uqs"] = [u for u in t["uqs"] if u["name"] != u9["name"]]
+            t["ixs"].append({"name": u9["name"], "cols": list(u9["cols"]), "unique": True})
+
+        out.append(({"m": "swapNamedKind", "t": tn, "n": u9["name"], "to": "index"}, mutated(swap_u)))
+    elif t0["ixs"]:
+        i9 = rng.choice(t0["ixs"])
+        if tuple(sorted(i9["cols"])) not in {tuple(sorted(u["cols"])) for u in t0["uqs"]}:
+            def swap_i(s, i9=i9):
+                t = tbl(s, tn)
+                t["ixs"] = [i for i in t["ixs"] if i["name"] != i9["name"]]
+                t["uqs"].append({"name": i9["name"], "cols": list(i9["cols"])})
+
+            out.append(({"m": "swapNamedKind", "t": tn, "n": i9["name"], "to": "unique"}, mutated(swap_i)))
     # changeDefault
     c2 = rng.choice([c for c in t0["cols"] if not c.get("computed")])   # a Computed column has no plain server default
     nd = gen_default(rng, odd)
@@ -342,17 +390,17 @@ def candidate_mutations(rng, schema, odd=False):
     return out
 
 
-def gen_pair(rng, odd=False, max_tables=5, max_cols=6, funcs=False):
-    a = gen_schema(rng, odd, max_tables, max_cols, funcs)
+def gen_pair(rng, odd=False, max_tables=5, max_cols=6, funcs=False, computed=False):
+    a = gen_schema(rng, odd, max_tables, max_cols, funcs, computed, nullable_unset=bool(computed))
     r = rng.random()
     if r < 0.15:
-        b = gen_schema(rng, odd, max_tables, max_cols, funcs)
+        b = gen_schema(rng, odd, max_tables, max_cols, funcs, computed, nullable_unset=bool(computed))
         # avoid cross-schema name clashes of constraint names on different tables (index names are global in SQLite)
         rename = {}
         an = all_names(a)
         for t in b["tables"]:
-            for k in ("ixs", "uqs", "fks"):
-                for o in t[k]:
+            for k in ("ixs", "uqs", "fks", "fixs"):
+                for o in t.get(k, []):
                     if o["name"] in an:
                         o["name"] = o["name"] + "b"
         return a, b
@@ -430,6 +478,9 @@ def schema_flags(schema):
         tags.add("constraints-same-signature")
     for t in schema["tables"]:
         for c in t["cols"]:
+            if c.get("computed") and c["computed"].get("nullable_unset"):
+                # (tables with Computed columns are inside the class again since the batch copy was repaired, 24f0c6a)
+                tags.add("computed-nullable-unset")
             d = c.get("default")
             if d is not None and d["kind"] == "func":
                 tags.add("default-func")
@@ -443,3 +494,33 @@ def schema_flags(schema):
             if c["ty"]["fam"] in UNREFLECTABLE:
                 tags.add("type-not-reflectable")
     return tags
+
+
+# --- a small fixed battery (C06): paths the random edits reach too rarely in the quick tier ---------------
+
+
+def _c(name, fam, args=(), nullable=True, pk=False, default=None, **kw):
+    c = {"name": name, "ty": {"fam": fam, "args": list(args)}, "nullable": nullable, "pk": pk, "default": default}
+    c.update(kw)
+    return c
+
+
+def battery_pairs():
+    """(label, A, B): same-family argument change, NUMERIC/DECIMAL synonym, and the Computed-column corner cases
+    (nullable unset, expression text changed, computed <-> plain)"""
+    def sch(*cols, **kw):
+        return {"tables": [{"name": "bt", "cols": [_c("id", "Integer", nullable=False, pk=True)] + list(cols), "uqs": [], "ixs": [], "fks": [], **kw}]}
+
+    comp = lambda sql="length(a) + 1", **kw: _c("g", "Integer", computed={"sql": sql, "ref": "a", "persisted": False, **kw.pop("c", {})}, **kw)
+    a_col = _c("a", "String", [10])
+    return [
+        ("varchar-length", sch(_c("a", "String", [10])), sch(_c("a", "String", [20]))),
+        ("numeric-scale", sch(_c("a", "Numeric", [10, 2])), sch(_c("a", "Numeric", [10, 4]))),
+        ("numeric-decimal-synonym", sch(_c("a", "Numeric", [10, 2])), sch(_c("a", "DECIMAL", [10, 2]))),
+        ("decimal-numeric-synonym", sch(_c("a", "DECIMAL", [12, 3])), sch(_c("a", "NUMERIC", [12, 3]))),
+        ("computed-nullable-unset", sch(a_col, comp(nullable=False)), sch(a_col, comp(nullable=True, c={"nullable_unset": True}))),
+        ("computed-sql-changed", sch(a_col, comp()), sch(a_col, comp("length(a) + 2"))),
+        ("computed-to-plain", sch(a_col, comp()), sch(a_col, _c("g", "Integer"))),
+        ("plain-to-computed", sch(a_col, _c("g", "Integer")), sch(a_col, comp())),
+        ("add-stored-computed", sch(a_col), sch(a_col, comp(c={"persisted": True}))),
+    ]
